@@ -249,6 +249,10 @@ func (a *Agent) UpdatePeers(ctx context.Context, p pool.Pool) error {
 	case <-ctx.Done():
 		return ctx.Err()
 	}
+	// Whoever has the turn keeps the periodic keep-alives waiting: like theirs,
+	// this round must come to an end even if it is never answered.
+	ctx, cancel := context.WithTimeout(ctx, updateTimeout)
+	defer cancel()
 	return a.updatePeers(ctx, p)
 }
 
